@@ -19,7 +19,7 @@ pub fn prop() -> Prop {
         check,
         quick_runs: 16_000,
         both_profiles: false,
-        rule: "a run = 2-16 aircraft alternating talk spurts and silences whose lengths are drawn from {d-1, d-0.001, d, d+0.001, d+1, 3d, random} s for the run's delete_after d in {1,5,60,600,86400}; the refreshing frame of a spurt cycles through every format; a chatter aircraft keeps sweeps coming (in some runs nobody talks); -U on/off, -f subsets (excluded frames must not refresh), file or TCP with reconnects in the middle of silences; channel drops and duplicates; in 6 % of the runs the wall clock is set back once or twice (a row seen stale once may then be gone although it looks young again); non-trivial = at least one row expired and at least one row was refreshed after a silence; distinct = distinct scripts",
+        rule: "a run = 2-16 aircraft alternating talk spurts and silences whose lengths are drawn from {d-1, d-0.001, d, d+0.001, d+1, 3d, random} s for the run's delete_after d in {1,5,60,600,86400}; the refreshing frame of a spurt cycles through every format; a chatter aircraft keeps sweeps coming (in some runs nobody talks); -U on/off, -f subsets (excluded frames must not refresh), file or TCP with reconnects in the middle of silences; channel drops and duplicates; in 6 % of the runs the wall clock is set back once or twice (a row seen stale once may then be gone although it looks young again); delete_after also 9e12 / 1e15 / i64::MAX ('never'); every 4 000th run index is a table of 600-1500 aircraft going silent at once; non-trivial = at least one row expired and at least one row was refreshed after a silence; distinct = distinct scripts",
         level_text: "seeded schedules of frames and silences under a discrete-event clock (exact limits d and 10 s reachable); oracle = reference expiry model after every event: live rows present, last-contact stamp equals processing time of the latest accepted frame, stale rows gone after 12 accepted frames, re-created rows remember nothing, row-count bound",
     }
 }
@@ -130,6 +130,7 @@ fn gen(rng: &mut Rng, idx: u64, tier: Tier) -> Case {
         if rng.chance(0.05) { lines.push((0, line, format!("{:?}:duplicate", kind).to_lowercase())); }
     }
     gen::clock_steps_back(rng, &mut lines, 0.06);
+    gen::near_time_boundary(rng, &mut lines, 0.03);
     let ch = *rng.pick(&[Chunking::Line, Chunking::Line, Chunking::Line, Chunking::Multi]);
     let tcp = rng.chance(0.35);
     let mut script = Script::file(args, vec![]);
@@ -148,7 +149,7 @@ fn gen(rng: &mut Rng, idx: u64, tier: Tier) -> Case {
                 ops.push(if rng.chance(0.5) { Op::Eof { dt_us: 0 } } else { Op::Err { dt_us: 0, kind: "ConnectionReset".into() } });
             }
             conns.push(Conn::Accept { ops });
-            if c + 1 < n_conn && rng.chance(0.3) { conns.push(Conn::Refuse { kind: "ConnectionRefused".into() }); }
+            if c + 1 < n_conn && rng.chance(0.3) { conns.push(Conn::Refuse { kind: "ConnectionRefused".into(), dt_us: 0 }); }
         }
         script.conns = conns;
     } else {
